@@ -229,6 +229,38 @@ def explore(ctx):
             failures.append({'kind': 'spec', 'what': 'live aggregate on a terminal keeps running 3 s after the terminal went away', 'payload': {'query': q}})
         elif 'panicked' in err:
             failures.append({'kind': 'spec', 'what': 'panic after the terminal went away: ' + err[-200:], 'payload': {'query': q}})
+    # stderr goes away together with stdout (`agrind ... 2>&1 | head -1`): still a clean stop, not a panic while reporting
+    for q, feed, what in (('*', b'hello world\n', 'records'), ('* | json', b'{"a": 1}\n', 'json records'),
+                          ('* | json | where nope > 1', b'{"a": 1}\n', 'every row fails (finite input)')):
+        endless = what != 'every row fails (finite input)'
+        p = subprocess.Popen([aglib.AGRIND, q], stdin=subprocess.PIPE, stdout=subprocess.PIPE, stderr=subprocess.STDOUT, env=aglib.ENV)
+        stop = threading.Event()
+
+        def feeder(p=p, feed=feed, endless=endless):
+            try:
+                if endless:
+                    while not stop.is_set():
+                        p.stdin.write(feed * 500)
+                else:
+                    p.stdin.write(feed * 100000)
+                p.stdin.close()
+            except (BrokenPipeError, ValueError, OSError):
+                pass
+        tf = threading.Thread(target=feeder, daemon=True)
+        tf.start()
+        os.read(p.stdout.fileno(), 16)
+        p.stdout.close()
+        try:
+            rc = p.wait(timeout=20)
+        except subprocess.TimeoutExpired:
+            rc = None
+            p.kill()
+        stop.set()
+        evaluations += 1
+        nontrivial += 1
+        if rc is None or rc in (101, 134, -6, -11):
+            failures.append({'kind': 'spec', 'what': 'stdout and stderr are the same pipe and its reader went away (%s): %s' % (what, 'still running after 20 s' if rc is None else 'exit status %s (panic)' % rc),
+                             'payload': {'query': q, 'how': "agrind '%s' 2>&1 | head -c 16" % q}})
     # unreadable inputs and invalid command lines
     tmpd = tempfile.mkdtemp(prefix='agv-c17-', dir=aglib.BUILD)
     noperm = os.path.join(tmpd, 'noperm')
